@@ -215,41 +215,40 @@ Proof.
   unfold c04_expected_null_union. cbn [c04e_depth]. apply is_double_optional_depth.
 Qed.
 
-(* newtype payload: `content?: T`; Option<Option<T>> is the recorded class C04-ts-double-nonfield *)
+(* newtype payload: `content?: T`, and `content?: T | null` for Option<Option<T>> (typescript.rs:312; the former class
+   C04-ts-double-nonfield is repaired, so there is no carve-out) *)
 Theorem ts_payload_good g ue t vsh s v s' :
   (is_optional t = true -> tmap_get (ts_type_mappings cfg) (rtype_display t) = None) ->
   ts_variant_of cfg g ue (VTuple t vsh) s = Ok (v, s') ->
-  exists y, ts_texp cfg g (c04_strip t) s = Ok (y, s') /\ v = TVTuple (vcomments vsh) (renamed (vid vsh)) y (is_optional t) /\
-    forall decl, known_C04 TypeScript (c04_expect_of C04Payload t false (ts_show y)) = None ->
+  exists y, ts_texp cfg g (c04_strip t) s = Ok (y, s') /\
+    v = TVTuple (vcomments vsh) (renamed (vid vsh)) y (is_optional t) (is_double_optional t) /\
+    forall docs decl gs tag content,
+      ts_c04_rows (TSUnion docs decl gs tag content [v]) =
+        [c04_mk decl (renamed (vid vsh)) C04Payload (is_optional t) (is_optional t) (is_double_optional t) (ts_show y) (ts_show y)] /\
       good_C04 TypeScript (c04_expect_of C04Payload t false (ts_show y))
-               (c04r_seen (c04_mk decl (renamed (vid vsh)) C04Payload (is_optional t) (is_optional t) false (ts_show y) (ts_show y))) = true.
+               (c04r_seen (c04_mk decl (renamed (vid vsh)) C04Payload (is_optional t) (is_optional t) (is_double_optional t) (ts_show y) (ts_show y))) = true.
 Proof.
   intros Hm H. cbn [ts_variant_of] in H. apply mbind_ok in H as (ty & s1 & Hty & H). unfold ret in H. injection H as <- <-.
   rewrite (ts_texp_strip _ _ _ Hm) in Hty. exists ty. repeat split; [exact Hty|].
-  intros decl Hk. apply good_intro; cbn [c04_mk c04r_seen c04s_type_mark c04s_init_mark c04s_base c04s_null_union];
+  apply good_intro; cbn [c04_mk c04r_seen c04s_type_mark c04s_init_mark c04s_base c04s_null_union];
     rewrite ?expected_plain; try reflexivity.
-  unfold known_C04, c04_expect_of in Hk. cbn [c04e_pos c04e_depth c04_fieldlike negb andb] in Hk.
-  unfold c04_expected_null_union, c04_expect_of. cbn [c04e_depth].
-  destruct (2 <=? rtype_opt_depth t); [discriminate|reflexivity].
+  unfold c04_expected_null_union, c04_expect_of. cbn [c04e_depth]. apply is_double_optional_depth.
 Qed.
 
-(* alias target: `type A = T | undefined` *)
+(* alias target: `type A = T | undefined`, and `type A = T | null | undefined` for Option<Option<T>> (typescript.rs:169) *)
 Theorem ts_alias_good uc a s d s' :
   (is_optional (atype a) = true -> tmap_get (ts_type_mappings cfg) (rtype_display (atype a)) = None) ->
   ts_decl_of uc cfg (ItAlias a) s = Ok (d, s') ->
   exists y, ts_texp cfg (agenerics a) (c04_strip (atype a)) s = Ok (y, s') /\
-    ts_c04_rows d = [c04_mk (renamed (aid a)) [] C04Alias (is_optional (atype a)) (is_optional (atype a)) false (ts_show y) (ts_show y)] /\
-    (known_C04 TypeScript (c04_expect_of C04Alias (atype a) false (ts_show y)) = None ->
-     good_C04 TypeScript (c04_expect_of C04Alias (atype a) false (ts_show y))
-              (c04r_seen (c04_mk (renamed (aid a)) [] C04Alias (is_optional (atype a)) (is_optional (atype a)) false (ts_show y) (ts_show y))) = true).
+    ts_c04_rows d = [c04_mk (renamed (aid a)) [] C04Alias (is_optional (atype a)) (is_optional (atype a)) (is_double_optional (atype a)) (ts_show y) (ts_show y)] /\
+    good_C04 TypeScript (c04_expect_of C04Alias (atype a) false (ts_show y))
+             (c04r_seen (c04_mk (renamed (aid a)) [] C04Alias (is_optional (atype a)) (is_optional (atype a)) (is_double_optional (atype a)) (ts_show y) (ts_show y))) = true.
 Proof.
   intros Hm H. cbn [ts_decl_of] in H. apply mbind_ok in H as (ty & s1 & Hty & H). unfold ret in H. injection H as <- <-.
   rewrite (ts_texp_strip _ _ _ Hm) in Hty. exists ty. repeat split; [exact Hty|].
-  intros Hk. apply good_intro; cbn [c04_mk c04r_seen c04s_type_mark c04s_init_mark c04s_base c04s_null_union];
+  apply good_intro; cbn [c04_mk c04r_seen c04s_type_mark c04s_init_mark c04s_base c04s_null_union];
     rewrite ?expected_plain; try reflexivity.
-  unfold known_C04, c04_expect_of in Hk. cbn [c04e_pos c04e_depth c04_fieldlike negb andb] in Hk.
-  unfold c04_expected_null_union, c04_expect_of. cbn [c04e_depth].
-  destruct (2 <=? rtype_opt_depth (atype a)); [discriminate|reflexivity].
+  unfold c04_expected_null_union, c04_expect_of. cbn [c04e_depth]. apply is_double_optional_depth.
 Qed.
 
 (* `?` and `| null` are both printed for Option<Option<T>>, and the printed member differs from the one of
@@ -262,6 +261,23 @@ Proof.
   intros Hd Hr Hk Ho Ht H. unfold ts_render_member in H. rewrite Hd, Hr, Hk, Ho, Ht in H.
   repeat apply app_inv_head in H.
   destruct (tm_null_union m1), (tm_null_union m2); try reflexivity; discriminate.
+Qed.
+
+(* the same at a newtype payload (`{ t: "V", c?: T | null }` vs `{ t: "V", c?: T }`) and at an alias target
+   (`type A = T | null | undefined;` vs `type A = T | undefined;`): two declarations that differ at most in the
+   `| null` flag and are printed alike have the same flag *)
+Theorem ts_double_distinguishable_payload tag content docs wire ty opt n1 n2 :
+  ts_render_variant tag content (TVTuple docs wire ty opt n1) = ts_render_variant tag content (TVTuple docs wire ty opt n2) -> n1 = n2.
+Proof.
+  intros H. cbn [ts_render_variant] in H. repeat apply app_inv_head in H.
+  destruct n1, n2; try reflexivity; discriminate.
+Qed.
+
+Theorem ts_double_distinguishable_alias docs name gs ty undef n1 n2 :
+  ts_render_decl (TSAlias docs name gs ty undef n1) = ts_render_decl (TSAlias docs name gs ty undef n2) -> n1 = n2.
+Proof.
+  intros H. cbn [ts_render_decl] in H. repeat apply app_inv_head in H.
+  destruct n1, n2, undef; try reflexivity; discriminate.
 Qed.
 End TS.
 
